@@ -2,7 +2,7 @@
 import random
 from propdefs import bfs
 
-N_DOCS = 14
+N_DOCS = 18
 GOOD_URLS = [1, 2, 3, 4]
 ODD_URLS = [5, 6, 7, 8, 9, 10, 11, 12, 13]
 
@@ -10,8 +10,8 @@ GEN = dict(runs=dict(quick=[bfs("MC_Calls", "Calls_design")], thorough=[bfs("MC_
 TRACE = dict(module="CallsTrace", cfg="CallsTrace")
 
 
-def step(o, entry="apply", url=None):
-    s = dict(entry=entry, nil=o["nil"], log=o["log"], skip=o["skip"], algo=o["algo"])
+def step(o, entry="apply", url=None, doc=-1):
+    s = dict(entry=entry, nil=o["nil"], log=o["log"], skip=o["skip"], algo=o["algo"], doc=doc)
     s["url"] = 0 if (o["nil"] or not o["url"]) else (url if url is not None else 1)
     return s
 
@@ -58,20 +58,26 @@ def c13_groups(cases, ctx):
 
 
 def c11_groups(cases, ctx):
-    """per document: repeated identical calls, the three byte/tree entry points, unrelated calls in between"""
+    """per document: repeated identical calls, the three byte/tree entry points, and calls on OTHER documents in between
+    (state leaking from one call into the next shows as a difference between two calls on the same document)"""
     roots, opts = tuples(cases)
     rnd = random.Random(ctx["seed"] * 37 + 11)
-    reps = 12 if ctx["tier"] == "quick" else 60
-    base = [o for o in opts if not o["nil"] and o["log"] in (0, 15)]
+    reps = 8 if ctx["tier"] == "quick" else 50
+    base = [o for o in opts if not o["nil"] and o["log"] in (0, 15) and o["url"] and not o["skip"]]
     out = []
     for rep in range(reps):
         for d in range(N_DOCS):
             url = GOOD_URLS[(d + rep) % len(GOOD_URLS)]
+            others = rnd.sample([x for x in range(N_DOCS) if x != d], 4)
             hist = []
-            for o in rnd.sample(base, 3):
-                hist += [step(o, "apply", url)] * 3 + [step(o, "reader", url)] * 2 + [step(o, "file", url)]
+            for o in rnd.sample(base, 2):
+                hist += [step(o, "apply", url)] * 8 + [step(o, "reader", url)] * 2 + [step(o, "file", url)]
+                hist += [step(o, "apply", url, doc=x) for x in others]
             rnd.shuffle(hist)
-            out.append(dict(p=dict(doc=d + N_DOCS * rep, root="document", hist=hist)))
+            # the group's own document first and last, so that every other document lies in between
+            o = base[0]
+            hist = [step(o, "apply", url)] + hist + [step(o, "apply", url)]
+            out.append(dict(p=dict(doc=d, root="document", hist=hist)))
     return out
 
 
@@ -167,7 +173,7 @@ PROPS = {
                 rule="cases = groups: one document through many option tuples (all 16 log sets x algo x skip x url, from the TLC model); "
                      "non-trivial = calls that returned a result",
                 nontrivial_key="returned_result", assumptions=ASSUME, exhaustive_tiers=()),
-    "C11": dict(stages=[stage(c11_groups, 170, 3000)],
+    "C11": dict(stages=[stage(c11_groups, 150, 1000)],
                 rule="cases = groups: identical calls repeated, Apply vs ApplyForReader vs ApplyForFile on the same bytes, shuffled with other calls; "
                      "non-trivial = calls that returned a result",
                 nontrivial_key="returned_result", assumptions=ASSUME, exhaustive_tiers=()),
